@@ -58,7 +58,13 @@ def main():
     if chk is None:
         print(f"unknown replay kind {rp['kind']}")
         return 0
-    bad, msg = chk(rp)
+    try:
+        bad, msg = chk(rp)
+    except (ArithmeticError, ValueError, IndexError, KeyError) as e:
+        import traceback
+        tb = traceback.extract_tb(e.__traceback__)
+        inrepo = any("openskill" in (fr.filename or "") or "statistics" in (fr.filename or "") for fr in tb)
+        bad, msg = inrepo, f"the real code raised {type(e).__name__}: {e} (at {tb[-1].filename}:{tb[-1].lineno})"
     if bad:
         print(f"REPRODUCED obligation={data['obligation']}: {msg}")
         return 1
